@@ -60,16 +60,27 @@ def requests(rng, ndocs, nrandom):
     for i in range(ndocs):
         d = gen.gen_universe(rng, 3 + i % 5, gen.FEATURE_SETS["unions"] if i % 2 else gen.FEATURE_SETS["all"])
         defs = {k: v for k, v in d.get("definitions", {}).items() if k not in ("T", "T1")}
+        # control: the document's definitions next to a trivial union (a panic / error of a definition is not the union's)
+        reqs.append({"comb": "oneOf", "defs": defs, "schemas": [{"type": "string"}, {"type": "integer"}], "doc": i, "control": True})
         for _, s in gen.iter_schemas(d):
             if isinstance(s, dict):
                 for comb in ("anyOf", "oneOf"):
                     if isinstance(s.get(comb), list) and s[comb]:
-                        reqs.append({"comb": comb, "defs": defs, "schemas": s[comb]})
+                        reqs.append({"comb": comb, "defs": defs, "schemas": s[comb], "doc": i})
     return reqs
 
 def _run(binary, lines):
     p = subprocess.run([binary], input="\n".join(lines) + "\n", capture_output=True, text=True)
     return p.stdout.split("\n")[:-1] if p.returncode == 0 else None
+
+def _dup_named(schemas):
+    names = []
+    for b in schemas:
+        if not isinstance(b, dict): return False
+        if isinstance(b.get("title"), str): names.append(b["title"])
+        elif isinstance(b.get("$ref"), str) and not (set(b) - {"$ref", "description", "title", "default", "examples"}): names.append(b["$ref"].rsplit("/", 1)[-1])
+        else: return False
+    return len(set(n.lower() for n in names)) < len(names)
 
 def _load(x):
     try: return json.loads(x)
@@ -78,15 +89,21 @@ def _load(x):
 def stage(ctx, thorough=False):
     """-> (stats, disagreements)"""
     reqs = requests(ctx.rng, 300 if thorough else 25, 4000 if thorough else 400)
-    lines = [json.dumps(r) for r in reqs]
-    real = _run(vlib.tvh("tag"), lines); model = _run(vlib.drv("tag"), lines)
+    lines = [json.dumps({k: v for k, v in r.items() if k not in ("doc", "control")}) for r in reqs]
+    # (a request on which typify overflows its stack — reference cycles through allOf, a listed finding — kills the harness
+    # process: such a request is answered `aborted` and the rest is re-run)
+    real = [a if a is not None else '{"shape":"aborted"}' for a in vlib.run_isolating(vlib.tvh("tag"), lines)]
+    model = _run(vlib.drv("tag"), lines)
     if real is None or model is None or len(real) != len(lines) or len(model) != len(lines):
         return {"requests": len(lines), "ran": False}, [{"what": "a side of the correspondence did not answer every request",
                                                          "real": None if real is None else len(real), "model": None if model is None else len(model)}]
-    stats = {"requests": len(lines), "ran": True, "badrequest": 0, "real_error": 0, "real_panics_model_unknown": 0}
+    stats = {"requests": len(lines), "ran": True, "badrequest": 0, "real_error": 0, "real_panics_model_unknown": 0, "document_definitions_unusable": 0}
     dis = []
+    unusable = {l["doc"] for r, l in zip(real, reqs) if "doc" in l and (_load(r).get("shape") == "aborted" or (l.get("control") and _load(r).get("shape") != "untagged"))}
     for r, m, l in zip(real, model, reqs):
         r, m = _load(r), _load(m)
+        if "doc" in l and (l.get("control") or l["doc"] in unusable):
+            stats["document_definitions_unusable"] += (not l.get("control")); continue
         if r.get("shape") == "badrequest": stats["badrequest"] += 1; continue
         alone = r.pop("alone", None) if isinstance(r, dict) else None
         if m.get("shape") == "singleton":
@@ -94,6 +111,10 @@ def stage(ctx, thorough=False):
             if alone is not None and alone == r and r["shape"] not in ("panic", "error"): stats["agree_singleton"] = stats.get("agree_singleton", 0) + 1; continue
         if r == m: stats["agree_" + r["shape"]] = stats.get("agree_" + r["shape"], 0) + 1; continue
         if r["shape"] == "panic" and m["shape"] == "unknown": stats["real_panics_model_unknown"] += 1; continue
+        if r["shape"] == "panic" and m["shape"] == "untagged" and _dup_named(l["schemas"]):
+            # the NAMES of untagged variants (schema_is_named, common-prefix removal) are not in the model: every branch is named
+            # and two names coincide, TypeEntryEnum::from_metadata panics on the duplicate
+            stats["untagged_duplicate_names"] = stats.get("untagged_duplicate_names", 0) + 1; continue
         if r["shape"] == "error":
             # the conversion of a payload (or of a definition of the request) failed: outside the model, counted
             stats["real_error"] += 1; continue
